@@ -108,6 +108,10 @@ def make_resolver(fq):
                 raise SHARED_PLAIN_ERROR
             if fault == "raise_te_ctor":
                 raise CtorError(list(path), "CTOR")
+            if fault == "raise_multi":
+                from tartiflette.types.exceptions.tartiflette import MultipleException
+                raise MultipleException([UserError("dev-%d" % k, user_message="problem %d at %s" % (k, list(path)),
+                                                   extensions={"code": "M%d" % k}) for k in range(3)])
             if fault == "raise_te_enriched":
                 # a library error built without extensions, enriched in place before being raised (its own dict, it should think)
                 from tartiflette.types.exceptions import TartifletteError
